@@ -327,6 +327,10 @@ func (c *Chain[I, O]) AppendBranch(b *ChainBranch) *Chain[I, O] { // nolint: byt
 		return c
 	}
 
+	if c.closedByFailedCompile() {
+		return c
+	}
+
 	var startNode string
 	if len(c.preNodeKeys) == 0 { // branch appended directly to START
 		startNode = START
@@ -439,6 +443,10 @@ func (c *Chain[I, O]) AppendParallel(p *Parallel) *Chain[I, O] {
 		return c
 	}
 
+	if c.closedByFailedCompile() {
+		return c
+	}
+
 	var startNode string
 	if len(c.preNodeKeys) == 0 { // parallel appended directly to START
 		startNode = START
@@ -522,6 +530,16 @@ func (c *Chain[I, O]) reportError(err error) {
 	}
 }
 
+// closedByFailedCompile reports (and records) an attempt to extend a chain whose last stage an earlier,
+// failed Compile has already connected to END: a stage appended now would hang beside END and never run.
+func (c *Chain[I, O]) closedByFailedCompile() bool {
+	if c.hasEnd && !c.gg.compiled {
+		c.reportError(errors.New("chain has been connected to END by an earlier Compile, cannot be extended"))
+		return true
+	}
+	return false
+}
+
 // addNode.
 // add a node to the chain.
 func (c *Chain[I, O]) addNode(node *graphNode, options *graphAddNodeOpts) {
@@ -531,6 +549,10 @@ func (c *Chain[I, O]) addNode(node *graphNode, options *graphAddNodeOpts) {
 
 	if c.gg.compiled {
 		c.reportError(ErrChainCompiled)
+		return
+	}
+
+	if c.closedByFailedCompile() {
 		return
 	}
 
